@@ -54,3 +54,54 @@ Proof. intros reg v H. unfold defs_ok, known. now apply knownb_known. Qed.
 Definition defs_registeredb (reg : registry) (v : val) : bool := knownb reg (defs_of v).
 Lemma defs_registeredb_ok : forall reg v, defs_registeredb reg v = true -> defs_registered reg v.
 Proof. intros reg v H. unfold defs_registered. now apply knownb_known. Qed.
+
+(* ------------------------------------------------------------------ registries built by GenericRegister *)
+From Eino Require Import Proofs.SerReg.
+Definition reg_wfb (reg : registry) : bool :=
+  str_nodup (map fst reg) && ty_nodup (map snd reg) && forallb (fun e => negb (is_ptr (snd e))) reg.
+Lemma reg_wfb_ok : forall reg, reg_wfb reg = true -> reg_wf reg.
+Proof.
+  intros reg H. unfold reg_wfb in H. apply andb_true_iff in H. destruct H as [H H3].
+  apply andb_true_iff in H. destruct H as [H1 H2]. repeat split.
+  - now apply str_nodup_ok.
+  - now apply ty_nodup_ok.
+  - apply Forall_forall. intros e Hin. rewrite forallb_forall in H3. specialize (H3 e Hin).
+    now apply negb_true_iff in H3.
+Qed.
+Lemma ckpt_reg_wf : reg_wf (ckpt_reg []).
+Proof. apply reg_wfb_ok. vm_compute. reflexivity. Qed.
+
+(* every registry a process can have: init() of serialization and compose, then any
+   sequence of RegisterSerializableType calls (refused ones change nothing) *)
+Lemma process_registry_names_unique : forall l, NoDup (map fst (register_all (ckpt_reg []) l)).
+Proof. intro l. apply (register_all_wf l (ckpt_reg []) ckpt_reg_wf). Qed.
+
+Lemma checkpoint_roundtrip_registered_lemma :
+  forall (J JK : Type) (jenc : base -> lit -> res J) (jdec : base -> J -> res lit)
+         (kenc : base -> lit -> res JK) (kdec : base -> JK -> res lit)
+         (l : list (string * ty)) (uenv : senv),
+    (forall b l j, lit_in_base b l = true -> jsafe l = true -> jenc b l = Ok j -> jdec b j = Ok l) ->
+    (forall b l j, lit_in_base b l = true -> jsafe l = true -> kenc b l = Ok j -> kdec b j = Ok l) ->
+    (forall n ds, struct_fields (ckpt_senv uenv) n = Some ds -> NoDup (map fst ds)) ->
+    let reg := register_all (ckpt_reg []) l in
+    forall cp oi,
+      has_type (ckpt_senv uenv) cp t_checkpoint_ptr = true -> safe cp -> defs_ok reg cp ->
+      marshal J JK jenc kenc fixed reg cp = Ok oi ->
+      exists cp', unmarshal J JK jdec kdec fixed reg (ckpt_senv uenv) oi = Ok cp' /\
+                  cp' ≅ cp /\ ty_of cp' = t_checkpoint_ptr.
+Proof.
+  intros J JK jenc jdec kenc kdec l uenv jrt krt Henv reg cp oi Ht Hs Hdo H.
+  unfold has_type in Ht. apply andb_true_iff in Ht. destruct Ht as [Hwt Hty]. apply ty_eqb_eq in Hty.
+  assert (Hi : is_iface (ty_of cp) = false) by (rewrite Hty; reflexivity).
+  destruct (enc_dec_roundtrip_lemma J JK jenc jdec kenc kdec reg _ jrt krt
+              (process_registry_names_unique l) Henv cp oi Hwt Hi Hs Hdo H)
+    as [cp' [Hd [Hv Hdt]]].
+  exists cp'. split; [exact Hd|]. split; [exact Hv|].
+  rewrite <- Hty. now apply veq_ty_of.
+Qed.
+(* the checkpoint types stay registered under their names whatever the user registers *)
+Lemma checkpoint_types_stay_registered : forall l,
+  rm_lookup (register_all (ckpt_reg []) l) (TStruct S_CHECKPOINT) = Some "_eino_checkpoint"%string /\
+  rm_lookup (register_all (ckpt_reg []) l) (TStruct S_DAG) = Some "_eino_dag_channel"%string /\
+  rm_lookup (register_all (ckpt_reg []) l) (TStruct S_PREGEL) = Some "_eino_pregel_channel"%string.
+Proof. intro l. repeat split; apply register_all_keeps; reflexivity. Qed.
